@@ -227,7 +227,19 @@ func Supervise(self, id, tier string) int {
 	var skipped []string
 	harnessErr := false
 	for i, wo := range outs {
-		skipped = append(skipped, wo.skipped...)
+		for _, sk := range wo.skipped {
+			if ch.HangIsViolation && strings.HasPrefix(sk, "hang: ") {
+				sub, key := "", strings.TrimPrefix(sk, "hang: ")
+				if j := strings.IndexByte(key, '\t'); j >= 0 {
+					sub, key = key[:j], key[j+1:]
+				}
+				viols = append(viols, Violation{Property: id, Check: sub, Key: key, Kind: "hang",
+					Detail: map[string]any{"why": fmt.Sprintf("the case did not finish within %v", ch.HangLimit), "crash": true}})
+				merged.NViolations++
+				continue
+			}
+			skipped = append(skipped, sk)
+		}
 		for _, ci := range wo.crashes {
 			sub, key := "", ci.key
 			if j := strings.IndexByte(key, '\t'); j >= 0 {
